@@ -127,7 +127,7 @@ def compare(ref, got, names=True):
 
 def check(pid: str, tier: str, seed: int):
     rng = random.Random(seed * 67867979 + 18)
-    violations, metas, cases39, cases_sc = [], [], [], []
+    violations, metas, cases39, cases_sc, cases_ld = [], [], [], [], []
     formats = {}
     with C.Scratch() as scratch:
         impl = C.import_impl()
@@ -184,8 +184,23 @@ def check(pid: str, tier: str, seed: int):
                     yaml.safe_dump(doc, f)
             formats['0.0.39/' + ext] = formats.get('0.0.39/' + ext, 0) + 1
             try:
-                got = resolved(load_model_from_version_0_0_39(f39, lcf))
+                m39 = load_model_from_version_0_0_39(f39, lcf)
+                got = resolved(m39)
                 pv += ['0.0.39: ' + v for v in compare(ref, got)]
+                if L is not None:
+                    # the state the legacy loader builds, against ModelLoad.load on the content in the order of the document
+                    # as parsed (PyYAML sorts keys on output)
+                    parsed = json.load(open(f39, encoding='utf-8')) if ext == 'json' else __import__('yaml').safe_load(open(f39, encoding='utf-8'))
+                    by_id = {a[0]: a for a in content[1]}
+                    assets_o = [by_id[int(k)] for k in parsed['assets']]
+                    atts_by = {t[0]: t for t in content[3]}
+                    atts_o = []
+                    for k, v in parsed.get('attackers', {}).items():
+                        t = atts_by[int(k)]
+                        eps = dict(t[2])
+                        atts_o.append((t[0], t[1], [(int(a), eps[int(a)]) for a in v['entry_points']]))
+                    content_o = (content[0], assets_o, content[2], atts_o)
+                    cases_ld.append(f'({LG.c_lang(L)}, {PMIO.c_content(content_o)}, true, {C.cjv(PMIO.loaded_obs(m39, lg))})')
             except Exception as e:
                 pv.append(f'0.0.39: the legacy loader raised {type(e).__name__} on a model the native loader accepts')
             cases39.append(f'({PMIO.c_content(content)}, {C.cjv(doc)})')
@@ -211,7 +226,8 @@ def check(pid: str, tier: str, seed: int):
         chksc = 'Definition check (c : lang * content * scad) : bool := scad_check c.'
         extra = {'LOOKUP': 'count_true (fun c : lang * content * scad => scad_lookup_ok (fst (fst c)) (snd (fst c))) cases'}
         badsc, counters, errsc = C.run_cases('C18S', IMPORTS + ' Lang LangGraph Classes', 'lang * content * scad', chksc, cases_sc, extra, shard=30)
-    errors = err39 + errsc
+        badld, cnt_ld, errld = C.run_cases('C18L', PMIO.LOAD_IMPORTS, PMIO.LOAD_TYPE, PMIO.LOAD_CHECK, cases_ld, PMIO.LOAD_EXTRA, shard=60)
+    errors = err39 + errsc + errld
     if errors:
         violations.append({'message': 'the correspondence could not be evaluated', 'cause': 'coq-error', 'correspondence': 'corr_C18_legacy', 'errors': errors[:3]})
     by_cause = {}
@@ -222,19 +238,19 @@ def check(pid: str, tier: str, seed: int):
         m = min(ms, key=lambda x: len(x['content'][1]) + len(x['content'][2]))
         violations.append({'message': cause, 'cause': cause, 'failing_input_found': True, 'model': m['label'], 'content': m['content'],
                            'legacy_document': m['doc39'] if cause.startswith('0.0.39') else m['scad'], 'cases_violating': len(ms)})
-    if (bad39 or badsc) and not by_cause:
+    if (bad39 or badsc or badld) and not by_cause:
         violations.append({'message': 'implementation and model disagree; no input found on which the property itself fails',
-                           'cause': 'model-mismatch', 'correspondence': 'corr_C18_legacy (Legacy.legacy39_check / scad_check)',
-                           'mismatching_cases': len(bad39) + len(badsc)})
+                           'cause': 'model-mismatch', 'correspondence': 'corr_C18_legacy (Legacy.legacy39_check / scad_check / ModelLoad.load on the 0.0.39 content)',
+                           'mismatching_cases': len(bad39) + len(badsc) + len(badld), 'by_stream': {'0.0.39': len(bad39), 'sCAD': len(badsc), 'rebuild': len(badld)}})
     nontriv = {json.dumps(m['content'], default=str) for m in metas if m['content'][2] and m['content'][3]}
-    cov = {'evaluations': len(cases39) + len(cases_sc), 'distinct_nontrivial': len(nontriv),
+    cov = {'evaluations': len(cases39) + len(cases_sc) + len(cases_ld), 'distinct_nontrivial': len(nontriv), 'rebuild_cases': len(cases_ld), 'rebuild_loadable': cnt_ld.get('LOADABLE', 0),
            'rule': 'random languages (inheritance, shared association names) and native models with explicit / negative ids, links between '
                    'sub-types, self links, attackers with several entry points per attacker and per asset, plus coreLang with the shipped example '
                    'models; each is written in the 0.0.39 layout (json / yml / yaml; defenses listed fully or only when set; associations nested or '
                    'inline; single targets) and as a .sCAD archive (one association element per linked pair and per entry-point step, both '
                    'orientations), loaded with the legacy loader and compared with the native load; non-trivial = has links and attackers',
            'samples': [metas[0]['content']] if metas else [], 'formats': formats, 'premises_met': counters.get('LOOKUP', 0),
-           'mismatches': len(bad39) + len(badsc), 'exhaustive': False}
+           'mismatches': len(bad39) + len(badsc) + len(badld), 'exhaustive': False}
     return {'violations': violations, 'coverage': cov,
             'trusted': ['json / PyYAML / xml.etree / zipfile turn documents into value trees (H-codec)',
                         'the inverse translations (harness/p_legacy.py doc_0039, scad_of) define what "the equivalent native model" is; '
